@@ -6,6 +6,7 @@
 import TealerModel.Generated.OpTable
 import TealerModel.Spec.OpTable
 import TealerModel.Ast
+import TealerModel.Lemmas.StackEffect
 namespace Tealer.C11
 
 /-- every non-family opcode sample: class, printed form, pops, pushes, introduction version and mode built by the
@@ -109,5 +110,18 @@ theorem C11_sim_step (sym : List Ref) (conc : List Tag) (p : Nat) (op : Op)
   · cases hc
 
 example : familySpec "dig" 3 0 = some (4, 5) := by decide
+
+/-- THE DECLARED EFFECTS ARE THE AVM's, for every input: a successful step of the concrete semantics on any dedicated opcode
+    of the fragment (control flow, constants, field reads, comparisons, logic, arithmetic) removes exactly `Op.pops` values
+    from the top of the stack — tealer's `stack_pop_size` —, leaves everything below untouched and pushes exactly
+    `Op.pushes` values.  (The generic opcodes — `Op.other` with the effect tealer declares — are compared with the
+    specification table row by row in `C11_effects_table`.)  With `C11_sim_step` this is what makes the reconstructed operand
+    of a comparison the value the AVM passes to it. -/
+theorem C11_semantics_effect (prog : List Ins) (e : Avm.Env) (s s' : Avm.State) (i : Ins) (hi : prog[s.pc]? = some i)
+    (hno : ∀ name po pu, i.op ≠ .other name po pu) (hs : Avm.step prog e s = .next s') :
+    i.op.pops ≤ s.stack.length ∧
+      ∃ pushed : List Avm.Val, pushed.length = i.op.pushes ∧
+        s'.stack = s.stack.take (s.stack.length - i.op.pops) ++ pushed :=
+  StackEffect.step_effect prog e s s' i hi hno hs
 
 end Tealer.C11
